@@ -18,6 +18,12 @@ COMMON_NOTE = ("Trusted: Coq 8.16.1 kernel (vm_compute, no native_compute); prop
                "correspondence harness and its monkeypatches; external libraries modelled as parameters (DESIGN.md section 4). ")
 
 CHECKS = [
+    check("C20",
+          "Coq theorems over _dns.py with the sort key, f-strings, rstrip argument and resolve() arguments regenerated from the source: for every non-empty answer list (unbounded) the "
+          "selected record is a member with minimal priority and, among those, maximal weight; port/weight/priority copied, target stripped of trailing dots; selection is invariant under "
+          "permutation up to ties; the query name is prefix.domain or the bare prefix; sync and async lookups are the same normalised AST. Tie: kernels + correspondence on all multisets/permutations, both flavours.",
+          COMMON_NOTE + "Assumes sorted() stability (first minimiser) and the resolver contract; sync=async is a syntactic comparison backed by running both flavours.",
+          "Coq proof (induction over the answer list, lia over regenerated sort key) + exhaustive small-domain correspondence", "7/C20"),
     check("C02",
           "Coq theorems over the statement-level translation of compute_l2_key regenerated from _gkdi.py on every run, for an arbitrary KDF and key type: from every conforming envelope "
           "covering an in-range request the result is the MS-GKDI chain key K2(l1,l2) (all 2^20 position pairs, all shapes, any root key/SD/L0/hash; fuel 32 suffices = termination); "
